@@ -313,6 +313,25 @@ def _small_and_high(arg):
     return res.as_dict()
 
 
+def refill_histories(ctx):
+    from grid.utils import (convert_cart_to_sph, generate_derivative_real_spherical_harmonics, generate_real_spherical_harmonics,
+                            generate_real_spherical_harmonics_scipy, solid_harmonics)
+
+    rng = np.random.default_rng([ctx.seed, 88])
+    ta, tb = rng.uniform(-3, 3, 7), rng.uniform(-3, 3, 7)
+    pa, pb = rng.uniform(0.1, 3.0, 7), rng.uniform(0.1, 3.0, 7)
+    ca, cb = rng.normal(size=(7, 3)), rng.normal(size=(7, 3))
+    case = {"route": "refill"}
+    with warnings.catch_warnings():
+        warnings.simplefilter("ignore")
+        for nm, fn in (("generate_real_spherical_harmonics", lambda t, p: generate_real_spherical_harmonics(5, t, p)),
+                       ("generate_real_spherical_harmonics_scipy", lambda t, p: generate_real_spherical_harmonics_scipy(5, t, p)),
+                       ("generate_derivative_real_spherical_harmonics", lambda t, p: generate_derivative_real_spherical_harmonics(4, t, p))):
+            lattice.refill_check(ctx, nm, case, fn, (ta, pa), (tb, pb))
+        lattice.refill_check(ctx, "solid_harmonics", case, lambda sp: solid_harmonics(4, sp), (np.stack([pa, ta, pa], axis=1),), (np.stack([pb, tb, pb], axis=1),))
+        lattice.refill_check(ctx, "convert_cart_to_sph", case, lambda x, c: convert_cart_to_sph(x, c), (ca, ca[0]), (cb, cb[1]))
+
+
 def solid_and_conversion(ctx):
     from grid.utils import convert_cart_to_sph, solid_harmonics
 
@@ -396,6 +415,7 @@ def run(ctx):
     for res in lattice.pmap(_dispatch, jobs, ctx.workers):
         ctx.merge(res)
     solid_and_conversion(ctx)
+    ctx.guarded("refill", refill_histories, ctx)
     ctx.cov["lmax_values_vs_definition"] = lv
     ctx.cov["lmax_derivatives"] = ld
     ctx.cov["azimuths"] = list(AZ)
@@ -410,6 +430,8 @@ def _dispatch(job):
 
 
 def replay(ctx, case):
+    if case.get("route") == "refill":
+        return refill_histories(ctx)
     if case.get("route") == "small":
         return ctx.merge(_small_and_high(ctx.seed))
     r = case.get("route")
